@@ -56,6 +56,10 @@ func main() {
 		c.Floor("fine_crossings_by_steps_up_to_one_minute", int64(n)/25/sh, c.Counter("fine_crossings_by_steps_up_to_one_minute"))
 		c.Floor("fine_lines_after_cycle_in_current_file", int64(n)/5/sh, c.Counter("fine_lines_after_cycle_in_current_file"))
 
+		n = c.N(80, 1600)
+		secRotationConstruct(c, n)
+		c.Floor("construct_date_changed_after_creation_then_cycled", int64(n)/10/sh, c.Counter("construct_date_changed_after_creation_then_cycled"))
+
 		n = c.N(64, 1280)
 		secRotationConcurrent(c, n)
 		c.Floor("concurrent_rotation_lines", int64(n)*20/sh, c.Counter("concurrent_rotation_lines"))
